@@ -154,6 +154,42 @@ def _check_coord_access():
     return n, bad, mul_with_add
 
 
+def _check_literals(seed, n_random):
+    """bounded: literal leaves print as literals that Python reads back as the very value held in the tree"""
+    import random
+    import struct
+    h = pt.H()
+    rnd = random.Random(seed)
+    floats = [0.0, 0.1 + 0.2, 1 / 3, 2730.666 * 12, 32767.992000000002, 1e22, 1e-7, 5e-324, 1.7976931348623157e308,
+              2.5, -1.5, 1e16 + 2, 123456789.12345678, 0.30000000000000004, 4.35, -0.000123456789012345678,
+              float("inf"), -float("inf")]
+    while len(floats) < 18 + n_random:
+        x = struct.unpack("<d", struct.pack("<Q", rnd.getrandbits(64)))[0]
+        if x == x:          # not NaN (no teaal code constructs one)
+            floats.append(x)
+    ints = [0, 1, -1, 7, -3, 2 ** 31, -2 ** 63, 10 ** 30, -10 ** 30] + [rnd.randint(-10 ** 12, 10 ** 12) for _ in range(50)]
+    bad, n = [], 0
+    for f in floats:
+        n += 1
+        node = h.EFloat(f)
+        if not pt.expr_agrees(node):
+            bad.append("EFloat(%r) prints as %s" % (f, node.gen()))
+    for i in ints:
+        n += 1
+        node = h.EInt(i)
+        if not pt.expr_agrees(node):
+            bad.append("EInt(%r) prints as %s" % (i, node.gen()))
+    for b in (True, False):
+        n += 1
+        if not pt.expr_agrees(h.EBool(b)):
+            bad.append("EBool(%r) prints as %s" % (b, h.EBool(b).gen()))
+    for t in ("K", "tmp/extensor-K0-iter.csv", "A_MK", "", "a b", "x-y.z"):
+        n += 1
+        if not pt.expr_agrees(h.EString(t)):
+            bad.append("EString(%r) prints as %s" % (t, h.EString(t).gen()))
+    return n, bad
+
+
 def extra(uni, tier, seed):
     out = []
     t0 = time.time()
@@ -164,6 +200,15 @@ def extra(uni, tier, seed):
         acc = table[shape]
         out.append(Extra("printer/%s accepts %s" % (shape, ",".join(sorted(acc, key=lambda l: pt.RANK.get(l, 99))) or "nothing"),
                          True if shape != "SFor.stmt/empty-body" else True, "", backend="finite-case", kind="finite"))
+    # literal leaves: the non-infinite branch of EFloat.gen / EInt.gen returns CPython's own str()/repr() of the value
+    # held (a shortest round-trip literal: trusted CPython guarantee), nothing reformatted
+    for cls, fld in (("EFloat", "float"), ("EInt", "int")):
+        fn = extract.module("teaal/hifiber/expr.py").func(cls + ".gen")
+        rets = [ast.unparse(n.value) for n in ast.walk(fn) if isinstance(n, ast.Return) and n.value is not None]
+        okr = all(r in ("str(self.%s)" % fld, "repr(self.%s)" % fld) or (isinstance(ast.parse(r, mode="eval").body, ast.Constant))
+                  for r in rets) and any(r in ("str(self.%s)" % fld, "repr(self.%s)" % fld) for r in rets)
+        out.append(Extra("printer/%s.gen returns str() of the value held (or a constant spelling of infinity)" % cls, okr,
+                         str(rets), backend="finite-case", kind="finite"))
     n1, bad1 = _check_add_operator(table)
     out.append(Extra("summary/Equation.__add_operator prints its operands correctly for every level but LAMBDA",
                      not bad1, "%d cases; %s" % (n1, bad1[:3]), backend="finite-case", kind="finite"))
@@ -198,7 +243,10 @@ def bounded(uni, tier, seed):
     from teaal.trans.hifiber import HiFiber
     n3, bad3, mwa = _check_coord_access()
     fails = [{"name": "bounded/CoordAccess.build_expr", "detail": b, "witness": {"expression": b}} for b in bad3]
-    ev, samples, distinct = n3, [{"family": "affine index expressions", "count": n3, "mul_with_add_argument": mwa}], set()
+    n4, bad4 = _check_literals(seed, 500 if tier != "thorough" else 20000)
+    fails += [{"name": "bounded/literal-leaves", "detail": b, "witness": {"leaf": b}} for b in bad4[:3]]
+    ev, samples, distinct = n3 + n4, [{"family": "affine index expressions", "count": n3, "mul_with_add_argument": mwa},
+                                      {"family": "literal leaves (floats incl. 17-significant-digit values, ints, bools, strings)", "count": n4}], set()
     # whole programs: the statement tree built by the real compiler vs the parse of its text
     from props import defaults_family, cascade
     specs = []
@@ -228,8 +276,9 @@ def bounded(uni, tier, seed):
         if not pt.stmt_agrees(hf.hifiber):
             fails.append({"name": "bounded/program-text-vs-tree", "detail": "emitted text does not parse to the statement tree",
                           "witness": {"yaml": y[:1500]}})
-    return {"evaluations": ev, "distinct_nontrivial": len(distinct) + n3, "failures": fails, "samples": samples,
-            "rule": "CoordAccess.build_expr on enumerated affine expressions and their sympy-solved forms; the statement "
+    return {"evaluations": ev, "distinct_nontrivial": len(distinct) + n3 + n4, "failures": fails, "samples": samples,
+            "rule": "literal leaves read back as the value held (random doubles by bit pattern + boundary values); "
+                    "CoordAccess.build_expr on enumerated affine expressions and their sympy-solved forms; the statement "
                     "tree HiFiber(...).hifiber of every integration spec and of the C19 family converted structurally "
                     "and compared with ast.parse of the emitted text (bounded)"}
 
